@@ -3,7 +3,9 @@ package main
 import (
 	"fmt"
 	"go/token"
+	"go/types"
 	"sort"
+	"strings"
 
 	"golang.org/x/tools/go/ssa"
 )
@@ -144,7 +146,60 @@ func (e *Engine) havocLoop(st *State, fr *Frame, h *loopHdr, spec *LoopSpec) {
 					_ = mt
 					srt := "(Array " + sortOfKind(it.keyKind) + " Bool)"
 					it.visited = st.declare("visited", srt)
+					// implicit invariant kept by the engine: until an iteration has begun nothing is visited
+					it.started = st.declare("started", "Bool")
+					st.assume("(or " + it.started + " (forall ((k " + sortOfKind(it.keyKind) + ")) (! (not (select " + it.visited + " k)) :pattern ((select " + it.visited + " k)))))")
 				}
+			}
+		}
+	}
+	// snap variables that an atcall hook inside the loop (re)records: after the cut their value is that of some
+	// later iteration - arbitrary; a snap that was defined stays defined, one that was not may have become defined
+	if fr.contract != nil && len(st.frames) == 1 {
+		for _, hk := range fr.contract.Hooks {
+			if hk.Kind != "snap" || !e.hookInLoop(fr, hk, h) {
+				continue
+			}
+			old, had := fr.names[hk.Name]
+			if !had {
+				env0 := e.frameEnv(st, fr)
+				v, err := e.evalC(st, env0, hk.Clause.Expr)
+				if err != nil || v.Ty == nil {
+					// shape unknown before the first recording: usable only if an invariant never mentions it
+					continue
+				}
+				old = v
+			}
+			if old.Ty == nil {
+				switch old.K {
+				case KInt:
+					old.Ty = types.Typ[types.Int]
+				case KBool:
+					old.Ty = types.Typ[types.Bool]
+				case KStr:
+					old.Ty = types.Typ[types.String]
+				default:
+					continue
+				}
+			}
+			nv := st.freshVal(old.Ty, "snap_"+sanitize(hk.Name))
+			fr.names[hk.Name] = nv
+			delete(fr.nameAddr, hk.Name)
+			if fr.snaps == nil {
+				fr.snaps = map[string]bool{}
+			}
+			fr.snaps[hk.Name] = true
+			if fr.nameDef == nil {
+				fr.nameDef = map[string]string{}
+			}
+			if had {
+				if d, cond := fr.nameDef[hk.Name]; cond {
+					nd := st.declare("sdef", "Bool")
+					st.assume(sImp(d, nd))
+					fr.nameDef[hk.Name] = nd
+				}
+			} else {
+				fr.nameDef[hk.Name] = st.declare("sdef", "Bool")
 			}
 		}
 	}
@@ -251,6 +306,44 @@ func (e *Engine) loopWrites(st *State, fr *Frame, h *loopHdr) (all bool, roots [
 }
 
 func (st *State) escapeRoot(r string) { delete(st.private, r) }
+
+// hookInLoop: does the hook fire at some call inside the loop?
+func (e *Engine) hookInLoop(fr *Frame, hk *CallHook, h *loopHdr) bool {
+	for b := range h.blocks {
+		for _, in := range b.Instrs {
+			var cc *ssa.CallCommon
+			switch x := in.(type) {
+			case *ssa.Call:
+				cc = &x.Call
+			case *ssa.Go:
+				cc = &x.Call
+			default:
+				continue
+			}
+			var key string
+			if cc.IsInvoke() {
+				key = methodKey(cc.Value.Type(), cc.Method.Name())
+			} else if f := cc.StaticCallee(); f != nil {
+				key = keyOf(f)
+			} else if _, isB := cc.Value.(*ssa.Builtin); isB {
+				continue
+			} else {
+				key = "<dynamic func value>"
+			}
+			if _, isGo := in.(*ssa.Go); isGo {
+				key = "go " + key
+			}
+			if hk.Callee != "*" && !strings.Contains(key, hk.Callee) {
+				continue
+			}
+			if hk.Ord > 0 && e.callOrdinal(fr.fn, in, hk.Callee) != hk.Ord {
+				continue
+			}
+			return true
+		}
+	}
+	return false
+}
 
 // defaultLoopModifies: a syntactic over-approximation of what the loop writes.
 func (e *Engine) defaultLoopModifies(fr *Frame, h *loopHdr) []string {
